@@ -83,7 +83,13 @@ def class_session(rng, cfg, length):
         elif r < 0.55:
             ops.append("timeout %d" % interval)
         elif r < 0.9:
-            ops.append("resched %d %d %d" % (rng.randrange(2), rng.choice(big + [rng.randrange(2 ** 22)]), interval))
+            now = rng.choice(big + [rng.randrange(2 ** 22)])
+            if interval == 1 and now >= 2 ** 31 - 1:
+                # times = now / 1us >= 2^31: `std::min< int >( times, … )` converts out of range and
+                # `moved - last_latency_` overflows `int` (UB); only possible with a 1 us "interval",
+                # not modelled (the model answers `none`), so not generated
+                now = rng.randrange(2 ** 22)
+            ops.append("resched %d %d %d" % (rng.randrange(2), now, interval))
         else:
             ops.append("reset")
     return ops
